@@ -585,6 +585,26 @@ def r5(ctx):
     # pattern-side first-character rule is part of the same module-level class
     ok = "is_valid_first_char" in {prog.fns[r].name for r in prog.reach([em.id]) if r in prog.fns}
     ctx.ob("R5", "extract_meta_var uses is_valid_first_char", ok, "pattern recogniser reaches is_valid_first_char: %s" % ok, where=em.loc())
+    # the set that is checked is the whole set of template variables: Fixer::used_vars hands on TemplateFix::used_vars unfiltered
+    # (expandStart/expandEnd rules are matched into a scratch env that is discarded: what they bind never reaches the template)
+    fu = ctx.anchor("R5", r"^ast_grep_config::fixer::Fixer::<L>::used_vars$")
+    if fu:
+        from ..query import value_sources
+        shrink = sorted({c.name for g in prog.family(fu) for c in g.calls if c.bb in g.live_blocks and c.name in (
+            "remove", "retain", "difference", "filter", "drain", "clear", "take", "extract_if", "intersection", "symmetric_difference", "filter_map", "skip", "skip_while", "take_while")})
+        rets = []
+        for bi in sorted(fu.live_blocks):
+            c = fu.call_at(bi)
+            if c is not None and c.dest and c.dest[0] == 0 and not c.dest[1]:
+                rets.append(c.best)
+            for st in fu.blocks[bi]["s"]:
+                if st[0] == "A" and st[1][0] == 0 and not st[1][1] and st[2][0] == "use" and st[2][1][0] != "k":
+                    rets += [o.ref.best if o.kind == "call" else describe_origin(fu, o) for o in deep_roots(prog, fu, st[2][1])]
+        ok = not shrink and bool(rets) and all(r.endswith("TemplateFix::used_vars") for r in rets)
+        ctx.ob("R5", "Fixer::used_vars is the template's full variable set", ok,
+               "returns TemplateFix::used_vars() as is" if ok else
+               "Fixer::used_vars returns %s after %s: a template variable removed here is never checked, so a fix variable nothing defines is accepted and substituted by the empty string" % (sorted(set(rets)), shrink or "a rewrite"),
+               where=fu.loc())
     # check_var_in_fix compares template names with defined names: both plain ids (no sigil)
     cf = ctx.anchor("R5", r"^ast_grep_config::check_var::check_var_in_fix$")
     if cf:
